@@ -36,7 +36,9 @@ type corpusResult struct {
 
 func loadCorpus(verif string) []corpusEntry {
 	var out []corpusEntry
-	for _, sub := range []string{"mutants/fire", "mutants/silent"} {
+	// mutants/limits: behaviour-preserving restructurings the anchor resolution is known not to follow (DESIGN.md §5);
+	// they are run so that the list stays honest (an entry that has become silent can be promoted), not counted
+	for _, sub := range []string{"mutants/fire", "mutants/silent", "mutants/limits"} {
 		ds, _ := filepath.Glob(filepath.Join(verif, sub, "*"))
 		for _, d := range ds {
 			b, err := os.ReadFile(filepath.Join(d, "expect.json"))
@@ -167,6 +169,8 @@ func runVariant(self, repo, verif string, e corpusEntry, props []string) []corpu
 			res.Outcome, res.Detail = "fired", hit
 		case e.Kind == "must-fire":
 			res.Outcome = "MISSED"
+		case e.Kind == "known-limit" && fired:
+			res.Outcome, res.Detail = "limit", hit
 		case fired:
 			res.Outcome, res.Detail = "FALSE-ALARM", hit
 		case knownSeen < expectedKnown(verif, prop):
